@@ -1,0 +1,8 @@
+//go:build !verif
+// +build !verif
+
+package tar
+
+// verifPoint marks a place where two of this package's own goroutines race and no caller-supplied object is
+// involved. It does nothing unless built with the 'verif' tag (see verifpoint_on.go).
+func verifPoint(string) {}
